@@ -27,8 +27,9 @@ def check(ctx):
     ctx.assumptions += [
         "URIs are modelled as (scheme, authority, module, segments) with case tags; rpki-rs parsing itself is not modelled",
         "hashes are injective on the contents a run uses (content ids)",
-        "theorems about staging/isolation assume deltas naming each URI once and canonical URIs (OpOk); "
-        "the two ways this fails on the code are recorded findings F-C10-1 (nested jails) and F-C10-2 (scheme case)",
+        "theorems about staging/isolation assume deltas naming each URI once and well-formed rsync URIs (OpOk); isolation "
+        "needs disjoint jails - nested jails are the open finding F-C10-1; F-C10-2 (scheme case) is fixed in /repo (0b03ffe5), "
+        "the model follows the fixed code and keeps the old key function only as a counter-model",
         "the twelve merge cases of StagedElements::merge_new_elements are compared exhaustively (staged kind x new kind x hash relation x "
         "URI case variant) through a cfg-gated wrapper (corpus/pubd/merge-table.ops); only eight of them are reachable by verified deltas",
     ]
@@ -46,8 +47,9 @@ MANIFEST = {
             "the held hash, all inside the jail), publish_atomic, staging_refines (list reply = current + staged, for every "
             "verified delta naming each URI once, by induction over the elements with an invariant on the staged set), "
             "rrdp_update_preserves, jails_disjoint_iff (iff-characterisation by '/'-segment prefixes and `ta`), isolation for "
-            "disjoint jails, remove_exact, with an invariant proved for every request history; the negations for nested handles "
-            "and for upper-case schemes are proved with witnesses that replay on the implementation (recorded findings). The "
+            "disjoint jails, remove_exact, with an invariant proved for every request history; the negation for nested handles is "
+            "proved with a witness that replays on the implementation (open finding); the former split of equal URIs into two "
+            "object keys (upper-case scheme) is fixed and kept as a counter-model of the pinned tree. The "
             "model is tied to the code by lock-step differential execution against the real RepositoryManager and by evaluating "
             "the theorem predicates on the implementation's own observations.",
     "note": "Kernel-checked theorems are about the model; the tie is seeded differential execution (replies, lists, stats, "
